@@ -75,6 +75,10 @@ Proof.
   - apply (no_overlap_pill fp), R.
 Qed.
 
+(* the driver-level function the tie evaluates only takes steps of the small-step system *)
+Theorem C06_driver_within_model : forall fp gr s d, reach fp s -> reach fp (fst (drive fp gr s d)).
+Proof. exact drive_reach. Qed.
+
 Print Assumptions C06_poststop_at_most_once_repaired.
 Print Assumptions C06_poststop_at_most_once_partial.
 Print Assumptions C06_double_poststop_refuted.
@@ -86,3 +90,4 @@ Print Assumptions C06_overlap_passivation_refuted.
 Print Assumptions C06_receive_after_poststop_refuted.
 Print Assumptions C06_partial.
 Print Assumptions C06_poisonpill_path.
+Print Assumptions C06_driver_within_model.
